@@ -14,9 +14,15 @@
 using namespace opensmt;
 using GM = STPGraphManager<SafeInt>;
 
-#define NV 4            // vertices 0..3 (0 is the 'zero' vertex of the store, nothing special for the search)
+#ifndef NV
+#define NV 4            // vertices 0..NV-1 (0 is the 'zero' vertex of the store, nothing special for the search)
+#endif
+#ifndef NE
 #define NE 5            // assigned edges live in slots 0..NE-1 of the store, slot NE is the edge to explain
+#endif
+#ifndef CMAX
 #define CMAX 8          // costs in -CMAX..CMAX
+#endif
 #define SCAP 12         // capacity of the stack model
 
 // ---------------------------------------------------------------- std::stack<VertexRef> as a fixed array
@@ -38,6 +44,14 @@ extern "C" VertexRef & stub_stack_top(Stack *) {
 extern "C" void stub_stack_pop(Stack *) { VASSERT(sp > 0, "pop() on a non-empty stack"); if (sp > 0) sp--; }
 extern "C" bool stub_stack_empty(Stack const *) { return sp == 0; }
 
+// ---------------------------------------------------------------- SafeInt addition without its overflow exception
+// (costs are within -CMAX..CMAX here, |path length| <= a few dozen: the throw is unreachable, asserted instead of encoded)
+extern "C" SafeInt stub_safeint_plus(SafeInt const * a, SafeInt b) {
+    ptrdiff_t x = a->value(), y = b.value();
+    VASSERT(x > -1000 && x < 1000 && y > -1000 && y < 1000, "bound: path lengths stay far away from the SafeInt overflow check");
+    return SafeInt(x + y);
+}
+
 // ---------------------------------------------------------------- allocation of the two local vectors: static typed buffers
 static EdgeRef visited_buf[NV]; static SafeInt length_buf[NV];
 extern "C" EdgeRef * stub_alloc_edgeref(void *, size_t n, void const *) { VASSERT(n == NV, "visited has one slot per vertex"); return visited_buf; }
@@ -53,7 +67,8 @@ static RawStore S; static RawMapper M; static RawMgr G; static RawAdj adj;
 static Edge<SafeInt> edge_buf[NE + 1];
 static PtAsgn asgn_buf[NE + 1];
 static EdgeRef out_buf[NV][NE];
-static PtAsgn result_buf[6];
+#define RCAP (NE + 1)
+static PtAsgn result_buf[RCAP];
 union RawResult { vec<PtAsgn> v; RawResult() {} ~RawResult() {} };     // no destructor runs: the buffer is static
 static RawResult R;
 static long dummy_logic;
@@ -72,7 +87,7 @@ static void build_state(bool target_assigned) {
     n_asg = nondet_u8(); VASSUME(n_asg >= 1 && n_asg <= NE);
     for (unsigned i = 0; i <= NE; i++) {
         e_from[i] = nondet_u8() & 3; e_to[i] = nondet_u8() & 3;
-        VASSUME(e_from[i] != e_to[i]);                      // an atom x - y <= c relates two different vertices
+        VASSUME(e_from[i] < NV && e_to[i] < NV && e_from[i] != e_to[i]);                      // an atom x - y <= c relates two different vertices
         int c = (int)(nondet_u8() % (2 * CMAX + 1)) - CMAX;
         e_cost[i] = c;
         bool assigned = i < n_asg || (i == NE && target_assigned);
@@ -103,7 +118,7 @@ static void build_state(bool target_assigned) {
     auto & og = G.g.graph.outgoing; og._M_impl._M_start = adj.v; og._M_impl._M_finish = og._M_impl._M_end_of_storage = adj.v + NV;
 }
 
-static vec<PtAsgn> & result_vector() { vec<PtAsgn> & v = R.v; v.data = result_buf; v.cap = 6; v.sz = 0; return v; }
+static vec<PtAsgn> & result_vector() { vec<PtAsgn> & v = R.v; v.data = result_buf; v.cap = RCAP; v.sz = 0; return v; }
 
 // ---------------------------------------------------------------- deduced edge
 extern "C" void h_stp_explain_deduced() {
@@ -118,7 +133,7 @@ extern "C" void h_stp_explain_deduced() {
     // (2) a path from -> to over edges that held at that time, of total cost <= the target's cost (<= 3 edges: with 4 vertices
     //     and no negative cycle a shortest path is simple)
     unsigned k = nondet_u8(), p0 = nondet_u8(), p1 = nondet_u8(), p2 = nondet_u8();
-    VASSUME(k >= 1 && k <= 3 && p0 < n_asg && p1 < n_asg && p2 < n_asg);
+    VASSUME(k >= 1 && k <= NV - 1 && p0 < n_asg && p1 < n_asg && p2 < n_asg);
     VASSUME(e_from[p0] == e_from[T] && e_time[p0] <= e_time[T]);
     int total = e_cost[p0]; unsigned end = e_to[p0];
     if (k >= 2) { VASSUME(e_from[p1] == end && e_time[p1] <= e_time[T]); total += e_cost[p1]; end = e_to[p1]; }
@@ -134,7 +149,7 @@ extern "C" void h_stp_explain_deduced() {
     // difference logic
     unsigned n = (unsigned)v.size();
     VASSERT(n >= 1, "the explanation is not empty");
-    VASSERT(n <= NV, "bound: explanation of at most 4 literals");
+    VASSERT(n <= NV, "bound: explanation of at most NV literals");
     int sum = 0; unsigned at = e_to[T]; unsigned first_edge = 0, direct_long = NE + 1;
     for (unsigned j = 0; j < NV; j++) if (j < n) {
         unsigned idx = v[j].tr.x - 10;
